@@ -1,7 +1,7 @@
 """C02 — the root hash is the canonical Ethereum MPT root of the contents."""
 from trie import HexaryTrie
 
-from ..core import Violation, hx
+from ..core import Violation, deep, hx
 from ..hgen import HistoryGen, make_pool, make_values, probe_keys
 from ..hworld import HWorld
 
@@ -76,7 +76,7 @@ def generate(rng):
     prune = rng.random() < 0.5
     cache = rng.choice([0, 1, 2, 8, 4096])
     g = HistoryGen(rng, pool, values, probes, batches=True, aborts=True, reopen=True, lookups=(0, 0))
-    cmds = g.history(rng.randint(10, 80))
+    cmds = g.history(rng.randint(10, deep(80, 200)))
     return {"prop": ID, "cfg": {"prune": prune, "cache": cache}, "cmds": cmds}
 
 
